@@ -8,7 +8,7 @@ from ..semwalk import Ev, events_of, upath
 
 
 def short_ctx(pr, limit=160):
-    s = pr.ctx().replace("<class oneliner.namespaces:", "").replace("<class oneliner.pending_nodes:", "").replace(">", "")
+    s = re.sub(r"<class [\w.]+:(\w+)>", r"\1", pr.ctx())
     return s if len(s) <= limit else s[:limit] + "..."
 
 
